@@ -10,6 +10,7 @@ import (
 	"errors"
 	"fmt"
 	"path/filepath"
+	"reflect"
 	"strings"
 
 	classifier "github.com/google/licenseclassifier/v2"
@@ -304,7 +305,7 @@ func faultRun(c *hlib.Ctx, w world, in v2kit.Input, pad, at, kind int, withData 
 	case err == nil:
 		run.Violation = &hlib.Violation{Oracle: "fault-surfaces", Class: "fault-swallowed:" + cls,
 			Message: fmt.Sprintf("reader failed with %s (%v) at offset %d of %d but MatchFrom returned a nil error and %s", kname, e, at, len(data), v2kit.Pretty(got))}
-	case !errors.Is(err, e):
+	case !sameErr(err, e):
 		run.Violation = &hlib.Violation{Oracle: "fault-surfaces", Class: "fault-replaced:" + cls,
 			Message: fmt.Sprintf("reader failed with %v at offset %d but MatchFrom returned a different error: %v", e, at, err)}
 	case len(got.Matches) != 0 || got.TotalInputLines != 0:
@@ -312,6 +313,25 @@ func faultRun(c *hlib.Ctx, w world, in v2kit.Input, pad, at, kind int, withData 
 			Message: fmt.Sprintf("reader failed with %v at offset %d; MatchFrom returned the error together with partial results %s", e, at, v2kit.Pretty(got))}
 	}
 	return run
+}
+
+// sameErr: the returned error is the injected one (identity, or wrapping it).
+func sameErr(got, injected error) (ok bool) {
+	defer func() {
+		if recover() != nil {
+			ok = false
+		}
+	}()
+	if reflect.TypeOf(injected).Comparable() {
+		return errors.Is(got, injected)
+	}
+	// non-comparable dynamic type: compare by type and message through the chain
+	for e := got; e != nil; e = errors.Unwrap(e) {
+		if reflect.TypeOf(e) == reflect.TypeOf(injected) && e.Error() == injected.Error() {
+			return true
+		}
+	}
+	return false
 }
 
 func addReaderStats(run *hlib.Run, rd *v2kit.SimReader) {
@@ -383,7 +403,7 @@ func drawPad(s *choice.Stream) int {
 func seededRun(c *hlib.Ctx) *hlib.Run {
 	s := c.S
 	w := worlds[s.Pick([]int{5, 2, 2, 1}, "world")]
-	maxLen := []int{0, 0, 1030, 2060, 5000, 200000}[s.Draw(6, "maxlen")]
+	maxLen := []int{0, 0, 1030, 2052, 3072, 5000, 200000}[s.Draw(7, "maxlen")]
 	in := pool.Gen(s, maxLen)
 	pad := drawPad(s)
 	style := s.Pick([]int{6, 1, 1, 1, 1}, "style")
@@ -417,8 +437,8 @@ func main() {
 		Info: func() map[string]any {
 			return map[string]any{
 				"real_code":       []string{"v2 classifier (tokenizer, searchset, scoring, diff), go-diff: compiled unmodified from the tree under test"},
-				"simulated":       []string{"io.Reader handed to MatchFrom: fragmentation, zero-length reads, data-with-EOF, sticky faults of 5 kinds in 2 delivery forms"},
-				"enumerated":      fmt.Sprintf("%d fault cases = every offset 0..len of %d inputs x 5 error kinds x 2 delivery forms; %d pad cases = every width 0..%d of %d inputs", padBase, len(faultInputs), len(padInputs)*padWidths, padWidths-1, len(padInputs)),
+				"simulated":       []string{"io.Reader handed to MatchFrom: fragmentation, zero-length reads, data-with-EOF, sticky faults of 6 kinds (sentinel, wrapped sentinel, io.ErrUnexpectedEOF, io.ErrClosedPipe, non-comparable error type, deadline) in 2 delivery forms"},
+				"enumerated":      fmt.Sprintf("%d fault cases = every offset 0..len of %d inputs x 6 error kinds x 2 delivery forms; %d pad cases = every width 0..%d of %d inputs", padBase, len(faultInputs), len(padInputs)*padWidths, padWidths-1, len(padInputs)),
 				"worlds":          []string{"full embedded corpus @0.8", "every 9th document @0.7", "every 9th document @1.0", "every 9th document plus a user-added document of accented words @0.8"},
 				"fault_free_runs": "seeded runs with index%3 != 2; faults only in runs with index%3 == 2 (separate configurations)",
 			}
